@@ -94,9 +94,13 @@ Definition agree_rename_attrs (c : list (str * str * option str) * list str) : b
 
 Definition cls_of (t : str * str * bool * bool) : cls := let '(ns, n, e, a) := t in mk_cls ns n e a.
 
-Definition agree_rename_classes (c : bool * list (str * str * bool * bool) * list str) : bool :=
-  let '(use_names, l, obs) := c in
-  lstr_eqb (map c_name (rename_duplicate_classes use_names (map cls_of l))) obs.
+(* style, classes (container order), their locations, observed use_names, observed names *)
+Definition agree_should_use_names (c : str * list str * bool) : bool :=
+  let '(style, locs, obs) := c in Bool.eqb (should_use_names style locs) obs.
+
+Definition agree_rename_classes (c : str * list str * list (str * str * bool * bool) * list str) : bool :=
+  let '(style, locs, l, obs) := c in
+  lstr_eqb (map c_name (rename_duplicate_classes (should_use_names style locs) (map cls_of l))) obs.
 
 (* ---- oracles ------------------------------------------------------------------- *)
 Fixpoint nodupb (l : list str) : bool :=
